@@ -35,25 +35,35 @@ theorem noTagRef_of_not_isTagged (st : OciSt) (d : Node) (hinv : RefTagInv st)
       Nat.le_zero_eq, List.length_eq_zero_iff] at h
     rw [h] at hin; cases hin
 
+theorem mem_dropOld_of_ne (st : OciSt) (n : Node) (k k' : RefKey) (m : Node) (hne : k' ≠ k)
+    (h : k' ∈ st.tagsOf m) : k' ∈ st.dropOld n k m := by
+  unfold dropOld
+  split
+  · split
+    · exact (List.mem_erase_of_ne hne).mpr h
+    · exact h
+  · exact h
+
 theorem refTagInv_resolverTag (st : OciSt) (n : Node) (a : Nat) (k : RefKey) (h : RefTagInv st) :
     RefTagInv (st.resolverTag n a k) := by
   intro e he
   simp only [resolverTag, List.mem_cons, List.mem_filter] at he ⊢
-  rcases he with he | ⟨he, _⟩
+  rcases he with he | ⟨he, hek⟩
   · subst he
     simp only [if_true]
     split
     · assumption
     · simp
-  · by_cases hn : e.2.1 = n
+  · have hek' : e.1 ≠ k := by simpa using hek
+    have hd := mem_dropOld_of_ne st n k e.1 e.2.1 hek' (h e he)
+    by_cases hn : e.2.1 = n
     · simp only [hn, if_true]
-      have := h e he
-      rw [hn] at this
+      rw [hn] at hd
       split
-      · exact this
-      · exact List.mem_append_left _ this
+      · exact hd
+      · exact List.mem_append_left _ hd
     · simp only [hn, if_false]
-      exact h e he
+      exact hd
 
 theorem refs_resolverUntag (st : OciSt) (k : RefKey) :
     (st.resolverUntag k).refs = st.refs.filter (fun e => e.1 ≠ k) := by
